@@ -11,6 +11,7 @@
 import GoblVerif.Proofs.CalcError
 import GoblVerif.Proofs.CalcTax
 import GoblVerif.Spec.C01
+import Mathlib.Data.List.Forall2
 
 namespace GoblVerif
 open GoblVerif.Spec GoblVerif.Calc
@@ -1646,6 +1647,146 @@ theorem groupsT_round (d : Doc) (p : Pre) (tx : TaxTotal) :
 /-- the presented figure for a working amount -/
 theorem presents_rescale (c : ℕ) (a : Amount) : Spec.C01.presents c (a.rescaleX c) a.toRat :=
   ⟨rescaleX_exp a c, rescaleX_value a c⟩
+
+/-! ## presented rows: lines, advances, due dates -/
+
+/-- `a` shows the working amount `w`: unchanged, or rounded half away from zero once to fewer decimals -/
+def Shows (a w : Amount) : Prop := a = w ∨ ∃ e, e < w.exp ∧ Spec.C01.presents e a w.toRat
+
+theorem down_shows (w : Amount) (e : ℕ) : Shows (down exactOps w e) w := by
+  unfold down
+  split
+  · rename_i h
+    exact Or.inr ⟨e, h, presents_rescale e w⟩
+  · exact Or.inl rfl
+
+theorem roundLine_total (l : Line) (w : Amount) (h : l.total = some w) :
+    ∃ a, (roundLine exactOps l).total = some a ∧ Shows a w := by
+  unfold roundLine
+  split
+  · exact ⟨w, h, Or.inl rfl⟩
+  · split
+    · exact ⟨w, h, Or.inl rfl⟩
+    · rename_i p _
+      exact ⟨down exactOps w p.exp, by simp [h], down_shows w p.exp⟩
+
+/-- what a calculated document shows for a line of the class -/
+def LineShown (cur : String) (rates : List XRate) (c : ℕ) (l lo : Line) : Prop :=
+  ∃ w q a, lo.total = some a ∧ Shows a w ∧ c + 2 ≤ w.exp ∧
+    Spec.C01.lineTotalQ cur rates l = some q ∧ |w.toRat - q| ≤ (lineW l : ℚ) * halfUlp (c + 2)
+
+theorem lines_shown (d : Doc) (out : Out) (hd : DocA d) (hcalc : calculate exactOps d = .ok out) :
+    List.Forall₂ (LineShown d.cur d.rates d.c) d.lines out.lines := by
+  unfold calculate at hcalc
+  cases hpre : pre exactOps d with
+  | error e => simp [hpre] at hcalc
+  | ok p =>
+    simp only [hpre] at hcalc
+    obtain ⟨hrel, _⟩ := pre_spec d p hd hpre
+    split at hcalc
+    · injection hcalc with hcalc
+      rw [← hcalc]
+      refine hrel.imp ?_
+      intro l l' ⟨t, q, ht, _, hte, hq, herr⟩
+      exact ⟨t, q, t, ht, Or.inl rfl, hte, hq, herr⟩
+    · cases htx : taxTotal exactOps d.rule d.c d.includes p.rows with
+      | error e => simp [htx] at hcalc
+      | ok tx =>
+        simp only [htx] at hcalc
+        injection hcalc with hcalc
+        rw [← hcalc]
+        simp only [finish]
+        rw [List.forall₂_map_right_iff]
+        refine hrel.imp ?_
+        intro l l' ⟨t, q, ht, _, hte, hq, herr⟩
+        obtain ⟨a, ha, hs⟩ := roundLine_total l' t ht
+        exact ⟨t, q, a, ha, hs, hte, hq, herr⟩
+
+/-- a due date of the covered class: a non-zero percentage of the payable amount of at most 100 %,
+or a fixed amount -/
+def DueOk (x : Due) : Prop :=
+  (∃ p, x.percent = some p ∧ pctIsZero p = false ∧ |p.amount.toRat| ≤ 1) ∨
+  (x.percent = none ∨ ∃ p, x.percent = some p ∧ pctIsZero p = true)
+
+/-- the exact amount of a due date -/
+def dueQ (P : ℚ) (x : Due) : ℚ :=
+  match x.percent with
+  | some p => if p.amount.value == 0 then x.amount.toRat else P * p.amount.toRat
+  | none => x.amount.toRat
+
+theorem calcDue_ok (c : ℕ) (payable : Amount) (x : Due) (hx : DueOk x) (P : ℚ) :
+    ∃ w : Amount, Spec.C01.presents c (calcDue exactOps c payable x).amount w.toRat ∧
+      |w.toRat - dueQ P x| ≤ |payable.toRat - P| + halfUlp payable.exp := by
+  have h0 := halfUlp_nonneg payable.exp
+  have ha := abs_nonneg (payable.toRat - P)
+  rcases hx with ⟨p, hp, hz, hle⟩ | hp
+  · refine ⟨payable.mulX p.amount, ?_, ?_⟩
+    · have : (calcDue exactOps c payable x).amount = (payable.mulX p.amount).rescaleX c := by
+        simp [calcDue, hp, hz, pctOf]
+      rw [this]; exact presents_rescale c _
+    · have hz' : (p.amount.value == 0) = false := hz
+      simp only [dueQ, hp, hz', Bool.false_eq_true, if_false]
+      have h1 := mulX_err payable p.amount
+      have e : (payable.mulX p.amount).toRat - P * p.amount.toRat =
+          ((payable.mulX p.amount).toRat - payable.toRat * p.amount.toRat) + (payable.toRat - P) * p.amount.toRat := by ring
+      rw [e]
+      refine le_trans (abs_add_le _ _) ?_
+      have h2 : |(payable.toRat - P) * p.amount.toRat| ≤ |payable.toRat - P| := by
+        rw [abs_mul]
+        calc |payable.toRat - P| * |p.amount.toRat| ≤ |payable.toRat - P| * 1 :=
+              mul_le_mul_of_nonneg_left hle (abs_nonneg _)
+          _ = |payable.toRat - P| := mul_one _
+      linarith
+  · refine ⟨x.amount, ?_, ?_⟩
+    · have : (calcDue exactOps c payable x).amount = x.amount.rescaleX c := by
+        rcases hp with hp | ⟨p, hp, hz⟩
+        · simp [calcDue, hp]
+        · simp [calcDue, hp, hz]
+      rw [this]; exact presents_rescale c _
+    · have : dueQ P x = x.amount.toRat := by
+        rcases hp with hp | ⟨p, hp, hz⟩
+        · simp [dueQ, hp]
+        · have hz' : (p.amount.value == 0) = true := hz
+          simp [dueQ, hp, hz']
+      rw [this, sub_self, abs_zero]
+      linarith
+
+/-- the advance and due-date rows of a calculated document of the class `DocC` -/
+theorem payment_rows_shown (d : Doc) (out : Out) (t : Totals) (hd : DocC ret d) (hp : d.hasPayment = true)
+    (hdues : ∀ x ∈ d.dues, DueOk x)
+    (hcalc : calculate exactOps d = .ok out) (ht : out.totals = some t) :
+    List.Forall₂ (fun a ao => ∃ w : Amount, Spec.C01.presents d.c ao.amount w.toRat ∧
+        |w.toRat - advQ (Spec.C01.exactQ d).totalWithTax a| ≤ (1 + (twtW d (groupsT t) : ℚ)) * halfUlp (d.c + 2))
+      d.advances out.advances ∧
+    List.Forall₂ (fun x xo => ∃ w : Amount, Spec.C01.presents d.c xo.amount w.toRat ∧
+        |w.toRat - dueQ (Spec.C01.exactQ d).payable x| ≤ (1 + (twtW d (groupsT t) : ℚ)) * halfUlp (d.c + 2))
+      d.dues out.dues := by
+  obtain ⟨p, tx, hpre, htx, hout, htr⟩ := calculate_unpack d out t hcalc ht
+  have hG : groupsT t = groupsOf tx.cats := by rw [htr]; exact groupsT_round d p tx
+  obtain ⟨⟨hsexp, te, htwe⟩, _, _, _, _, _, w6⟩ := working_tax d p tx hd.tax hpre htx
+  obtain ⟨_, _, _, _, _, _, w7, _, _⟩ := working_spec d p tx hd hpre htx
+  obtain ⟨_, _, _, _, _, _, f7, f8, _, _⟩ := rawTotals_fields d p tx hd.tax.inc
+  have hh : halfUlp p.sum.exp ≤ halfUlp (d.c + 2) := halfUlp_mono _ _ hsexp
+  have hpe : (rawTotals exactOps d p tx).payable.exp = p.sum.exp := by
+    rw [f8]; cases d.rounding <;> simp only [add_exp] <;> exact te
+  rw [hout, hG]
+  simp only [finish, hp, if_true]
+  refine ⟨?_, ?_⟩
+  · rw [List.forall₂_map_right_iff, List.forall₂_map_right_iff]
+    apply List.forall₂_same.mpr
+    intro a ha
+    refine ⟨(calcAdvance exactOps d.c (rawTotals exactOps d p tx).totalWithTax a).amount, presents_rescale _ _, ?_⟩
+    have h1 := (calcAdvance_ok d.c (rawTotals exactOps d p tx).totalWithTax a (hd.advances a ha)
+      (by rw [f7, htwe]; exact hsexp) (Spec.C01.exactQ d).totalWithTax).2
+    have h2 : halfUlp (rawTotals exactOps d p tx).totalWithTax.exp ≤ halfUlp (d.c + 2) := by rw [f7, htwe]; exact hh
+    linarith
+  · rw [List.forall₂_map_right_iff]
+    apply List.forall₂_same.mpr
+    intro x hx
+    obtain ⟨w, hw1, hw2⟩ := calcDue_ok d.c (rawTotals exactOps d p tx).payable x (hdues x hx) (Spec.C01.exactQ d).payable
+    refine ⟨w, hw1, ?_⟩
+    have h2 : halfUlp (rawTotals exactOps d p tx).payable.exp ≤ halfUlp (d.c + 2) := by rw [hpe]; exact hh
+    linarith
 
 end Calc
 end GoblVerif
